@@ -87,15 +87,60 @@ pub fn quiet_panics() {
     std::panic::set_hook(Box::new(|_| {}));
 }
 
+/// A watchdog on an OS thread of its own: the server under test runs inside the harness's tokio
+/// runtime, so a change that parks every worker thread also stops the timers of `guard_case`.
+/// When the deadline of the case in flight passes, the watchdog prints the case header followed by
+/// a `harness_error hung` line and ends the process normally, so that the judge sees the case.
+pub static CASE_DEADLINE: std::sync::atomic::AtomicU64 = std::sync::atomic::AtomicU64::new(0);
+pub static CASE_HEADER: std::sync::Mutex<String> = std::sync::Mutex::new(String::new());
+
+fn now_secs() -> u64 {
+    std::time::SystemTime::now().duration_since(std::time::UNIX_EPOCH).map(|d| d.as_secs()).unwrap_or(0)
+}
+
+pub fn set_case_header(h: &str) {
+    *CASE_HEADER.lock().unwrap_or_else(|p| p.into_inner()) = h.to_string();
+}
+
+pub fn arm_case_deadline(secs: u64) {
+    static STARTED: std::sync::Once = std::sync::Once::new();
+    STARTED.call_once(|| {
+        std::thread::spawn(|| loop {
+            std::thread::sleep(std::time::Duration::from_millis(500));
+            let d = CASE_DEADLINE.load(std::sync::atomic::Ordering::SeqCst);
+            if d != 0 && now_secs() > d {
+                use std::io::Write;
+                let h = CASE_HEADER.lock().unwrap_or_else(|p| p.into_inner()).clone();
+                let mut o = std::io::stdout();
+                let _ = writeln!(o, "{}", h);
+                let _ = writeln!(o, "harness_error hung: the harness process (which hosts the server under test) stopped making progress: its runtime's worker threads are blocked");
+                let _ = writeln!(o, "end");
+                let _ = o.flush();
+                std::process::exit(0);
+            }
+        });
+    });
+    CASE_DEADLINE.store(if secs == 0 { 0 } else { now_secs() + secs }, std::sync::atomic::Ordering::SeqCst);
+}
+
 /// runs one case under a deadline of its own: a case that never returns (a registration, a
-/// connection or a library call without a deadline hung) is reported instead of stalling the run
+/// connection or a library call without a deadline hung) is reported instead of stalling the run;
+/// what the case wrote is printed as soon as it ends
 #[macro_export]
 macro_rules! guard_case {
     ($out:ident, $secs:expr, $call:expr) => {
+        $crate::util::arm_case_deadline($secs + 45);
         if tokio::time::timeout(std::time::Duration::from_secs($secs), $call).await.is_err() {
             use std::fmt::Write as _;
             let _ = writeln!($out, "harness_error hung: the case did not complete within {} s (a call without a deadline of its own never returned)", $secs);
             let _ = writeln!($out, "end");
+        }
+        $crate::util::arm_case_deadline(0);
+        {
+            use std::io::Write as _;
+            print!("{}", $out);
+            let _ = std::io::stdout().flush();
+            $out.clear();
         }
     };
 }
